@@ -1,6 +1,7 @@
 import TFV.Properties.DE
 import TFV.Properties.Runs
 import TFV.Properties.Src.BoundsControl
+import TFV.Properties.Src.Binomial
 #print axioms TFV.DE.C07_clamp
 #print axioms TFV.DE.C07_clampMean
 #print axioms TFV.DE.C07_repair_only_outside
@@ -18,3 +19,4 @@ import TFV.Properties.Src.BoundsControl
 #print axioms TFV.SrcTie.C07_src_bounds_control
 #print axioms TFV.SrcTie.C07_src_clamp_agrees
 #print axioms TFV.SrcTie.C07_src_bounds_control_in_box
+#print axioms TFV.SrcTie.C07_src_binomial
